@@ -43,6 +43,11 @@ type CListMempool struct {
 	txs          *clist.CList // concurrent linked-list of good txs
 	proxyAppConn proxy.AppConnMempool
 
+	// Serializes the admission of new txs (limit checks plus insertion). With
+	// the local ABCI client the CheckTx callbacks run on the callers' goroutines,
+	// i.e. concurrently.
+	addTxMtx tmsync.Mutex
+
 	// Track whether we're rechecking txs.
 	// These are not protected by a mutex and are expected to be mutated in
 	// serial (ie. by abci responses which are called in serial).
@@ -375,6 +380,9 @@ func (mem *CListMempool) resCbFirstTime(
 	peerP2PID p2p.ID,
 	res *abci.Response,
 ) {
+	mem.addTxMtx.Lock()
+	defer mem.addTxMtx.Unlock()
+
 	switch r := res.Value.(type) {
 	case *abci.Response_CheckTx:
 		var postCheckErr error
